@@ -126,3 +126,6 @@ Proof.
   induction 1 as [|x y l l' Hxy H IH]; cbn; [tauto|]. intros [<-|Hin]; [eauto|].
   destruct (IH Hin) as [b [Hb Hr]]. eauto.
 Qed.
+
+Lemma Ok_inj {A} (a b : A) : Ok a = Ok b -> a = b.
+Proof. intros H. inversion H. reflexivity. Qed.
